@@ -885,9 +885,9 @@ func (s *SecureChannel) scheduleExpiration(instance *channelInstance) {
 	s.instancesMu.Lock()
 	defer s.instancesMu.Unlock()
 
-	oldInstances := s.instances[instance.securityTokenID]
+	oldInstances := s.instances[instance.secureChannelID]
 
-	s.instances[instance.securityTokenID] = []*channelInstance{}
+	s.instances[instance.secureChannelID] = []*channelInstance{}
 
 	for _, oldInstance := range oldInstances {
 		if oldInstance.secureChannelID != instance.secureChannelID {
@@ -897,8 +897,8 @@ func (s *SecureChannel) scheduleExpiration(instance *channelInstance) {
 		if oldInstance.securityTokenID == instance.securityTokenID {
 			continue
 		}
-		s.instances[instance.securityTokenID] = append(
-			s.instances[instance.securityTokenID],
+		s.instances[instance.secureChannelID] = append(
+			s.instances[instance.secureChannelID],
 			oldInstance,
 		)
 	}
